@@ -184,6 +184,16 @@ func rewriteVM(fset *token.FileSet, af *ast.File, total map[string]int) int {
 			ce.Fun = vh("Recv")
 			n++
 			total["vm.recv"]++
+		case se.Sel.Name == "TrySend" && len(ce.Args) == 1:
+			ce.Args = []ast.Expr{se.X, ce.Args[0]}
+			ce.Fun = vh("TrySend")
+			n++
+			total["vm.trysend"]++
+		case se.Sel.Name == "TryRecv" && len(ce.Args) == 0:
+			ce.Args = []ast.Expr{se.X}
+			ce.Fun = vh("TryRecv")
+			n++
+			total["vm.tryrecv"]++
 		}
 		return true
 	})
